@@ -4,6 +4,41 @@ import z3
 from .theory import *
 
 
+_ite_memo = {}
+
+
+def has_ite(t) -> bool:
+    """does the term contain a boolean connective / ite (not allowed inside quantifier patterns)?"""
+    key = t.get_id()
+    r = _ite_memo.get(key)
+    if r is not None:
+        return r
+    stack, seen, found = [t], set(), False
+    while stack:
+        x = stack.pop()
+        i = x.get_id()
+        if i in seen:
+            continue
+        seen.add(i)
+        if i in _ite_memo:
+            if _ite_memo[i]:
+                found = True
+                break
+            continue
+        if z3.is_app(x):
+            k = x.decl().kind()
+            if k in (z3.Z3_OP_ITE, z3.Z3_OP_NOT, z3.Z3_OP_AND, z3.Z3_OP_OR, z3.Z3_OP_IMPLIES, z3.Z3_OP_EQ, z3.Z3_OP_LE,
+                     z3.Z3_OP_GE, z3.Z3_OP_LT, z3.Z3_OP_GT, z3.Z3_OP_DISTINCT) or z3.is_quantifier(x):
+                found = True
+                break
+            stack.extend(x.children())
+        elif z3.is_quantifier(x):
+            found = True
+            break
+    _ite_memo[key] = found
+    return found
+
+
 class Obligation:
     __slots__ = ('name', 'hyps', 'goal', 'kind', 'fn', 'note')
 
@@ -33,7 +68,21 @@ class State:
         self.pc.append(f)
 
     def set_arr(self, name, term):
+        if has_ite(term):
+            k = z3.FreshConst(term.sort(), name + '!n')
+            self.pc.append(k == term)
+            term = k
         self.h = self.h.set(name, term)
+
+    def name_sv(self, sv: 'SV') -> 'SV':
+        """give a pattern-safe name to a value whose term contains ite / connectives"""
+        if sv.kind == 'tuple':
+            return sv_tuple([self.name_sv(x) for x in sv.elts])
+        if sv.t is None or sv.kind == 'bool' or not has_ite(sv.t):
+            return sv
+        k = z3.FreshConst(sv.t.sort(), 'val!n')
+        self.pc.append(k == sv.t)
+        return SV(sv.kind, k, sv.ty, None, sv.py)
 
     def alloc_addr(self, cls_id: int):
         a = self.h.alloc
@@ -42,6 +91,38 @@ class State:
         h = h.set('own_obj', z3.Store(h.arr['own_obj'], a, z3.IntVal(-1)))
         self.h = h
         return a
+
+
+def named_heap(st: 'State') -> H:
+    """heap snapshot whose arrays are plain constants (defining equations go to the path condition), so that contract
+    clauses may use any heap term inside quantifier patterns"""
+    arr = {}
+    changed = False
+    for n, t in st.h.arr.items():
+        if z3.is_const(t) and t.decl().kind() == z3.Z3_OP_UNINTERPRETED:
+            arr[n] = t
+        else:
+            k = z3.FreshConst(t.sort(), n + '!s')
+            st.pc.append(k == t)
+            arr[n] = k
+            changed = True
+    al = st.h.alloc
+    if not (z3.is_const(al) and al.decl().kind() == z3.Z3_OP_UNINTERPRETED):
+        k = z3.FreshConst(z3.IntSort(), 'alloc!s')
+        st.pc.append(k == al)
+        al = k
+        changed = True
+    if changed:
+        st.h = H(st.h.schema, arr, al)
+    return st.h
+
+
+def list_axioms(h: H):
+    """list theory: multiplicities and lengths are non-negative (for every list object of heap h)"""
+    l = z3.Const('l!la', Addr)
+    v = z3.Const('v!la', Val)
+    return [z3.ForAll([l, v], h.bag(l, v) >= 0, patterns=[h.bag(l, v)]),
+            z3.ForAll([l], h.len(l) >= 0, patterns=[h.len(l)])]
 
 
 class Exit:
